@@ -76,7 +76,7 @@ class Compiler:
     def __RunPass(self, data, passIndex, p, kind, debug=False):
         buffer = StringIO()
         if not p.Process(data, output=buffer):
-            print(f"Error in {kind} pass {p.GetName()}")
+            print(f"Error in {kind} pass {p.Name}")
             return False
 
         if debug and buffer.getvalue():
